@@ -20,12 +20,12 @@ CLAIMED = {
         "explicit-state enumeration of all civil dates / all lunar dates with successor-relation and round-trip oracles",
         "DESIGN.md 2/C02"),
     "C03": (
-        "Explicit-state exploration over the complete chain of lunations of lunar years 0..9999 (123,684 states): every adjacent pair must abut (first day + length = next first day), lengths 29/30, memo answer = cache-free constructor, next(n) = chain position + n for a step alphabet (thorough: -14..14, +-25, +-100, +-1237), and per year the month list / count / leap position / day count / new-year distance. Both tiers enumerate the whole chain; one corrupted packed table character shifts one year and is seen as a gap/overlap.",
+        "Explicit-state exploration over the complete chain of lunations of lunar years 0..9999 (123,684 states): every adjacent pair must abut (first day + length = next first day), lengths 29/30, memo answer = cache-free constructor, next(n) = chain position + n for a step alphabet (thorough: -14..14, +-25, +-100, +-1237), and per year the month list / count / leap position / day count / new-year distance. Per year also: LunarMonth::new(y, -m) is accepted iff m is the leap month. Both tiers enumerate the whole chain; one corrupted packed table character shifts one year and is seen as a gap/overlap.",
         "Trusted: model order of a lunar year (1..12, leap directly after its twin). Known findings: 4 boundary breaks + one 28-day month + 4 year spans of the AD 9-23 / 237-239 reform periods.",
         "explicit-state enumeration of the whole lunation chain with tiling invariants and step-alphabet conformance",
         "DESIGN.md 2/C03"),
     "C04": (
-        "Exhaustive check of every winter-solstice-to-winter-solstice span starting in 27..9997 except 237-239 (thorough: all 9,968; quick: windows): the lunation containing the library's own calendar-making solstice day must be month 11; 12 lunations => no leap, 13 => the first without a major-term day is the leap month and repeats the previous number; every lunation's label is compared with the rule's label and with get_leap_month / get_month_with_leap. Both tiers enumerate all sui; the 12 major terms of every year are also addressed with out-of-range indices (i-24 from the next year, i+24 from the previous one).",
+        "Exhaustive check of every winter-solstice-to-winter-solstice span starting in 27..9997 except 237-239 (thorough: all 9,968; quick: windows): the lunation containing the library's own calendar-making solstice day must be month 11; 12 lunations => no leap, 13 => the first without a major-term day is the leap month and repeats the previous number; every lunation's label is compared with the rule's label and with get_leap_month / get_month_with_leap. Both tiers enumerate all sui; the 12 major terms of every year are also addressed with out-of-range indices (i-24 from the next year, i+24 from the previous one); only the leap month of each year is constructible as a leap month.",
         "Relational oracle: the library's own new-moon days and term days (judged astronomically in C05); the rule is the classical no-major-term rule. Years before 27 and the sui starting 237-239 are outside the property.",
         "exhaustive enumeration of all sui with a rule-derived labelling compared to the implementation's labels",
         "DESIGN.md 2/C04"),
@@ -35,7 +35,7 @@ CLAIMED = {
         "exhaustive enumeration of all terms/lunations of bounded eras against an independent ephemeris model + self-consistency sweeps",
         "DESIGN.md 2/C05"),
     "C13": (
-        "Every civil year 1..9999: 2 half-years, 4 seasons, 12 months, nesting both ways; every one of the 119,988 months lists exactly the odometer's dates of that month, each listed date's day-of-year equals its position in the year's lists, the lists sum to the year's day count. Every lunar year 0..9999: month list = lunation table slice; every lunation lists days 1..=len on consecutive civil days. Hour lists (LunarDay 13 slots, SixtyCycleDay 12 slots with pillars) on 4 x 400 consecutive days; sexagenary months of all Lichun-years (quick: windows) list exactly Jie day .. day before the next Jie. Listed parts point back to their container (get_solar_month, get_solar_year, get_lunar_year, get_lunar_month, get_sixty_cycle_month); lunar months have 29 or 30 days and their listed days convert back to themselves.",
+        "Every civil year 1..9999: 2 half-years, 4 seasons, 12 months, nesting both ways; every one of the 119,988 months lists exactly the odometer's dates of that month, each listed date's day-of-year equals its position in the year's lists, the lists sum to the year's day count. Every lunar year 0..9999: month list = lunation table slice; every lunation lists days 1..=len on consecutive civil days. Hour lists (LunarDay 13 slots, SixtyCycleDay 12 slots with pillars) on 4 x 400 consecutive days; sexagenary months of all Lichun-years (quick: windows) list exactly Jie day .. day before the next Jie. Listed parts point back to their container (get_solar_month, get_solar_year, get_lunar_year, get_lunar_month, get_sixty_cycle_month); lunar months have 29 or 30 days and their listed days convert back to themselves; the month of sexagenary year 0 and the hour lists of the first and last weeks of the range.",
         "Oracles: odometer, lunation table (model order), the library's own Jie days.",
         "exhaustive enumeration of all containers with list-equals-model oracles",
         "DESIGN.md 2/C13"),
@@ -50,7 +50,7 @@ CLAIMED = {
         "explicit-state enumeration of all dates against series re-derived from term table + day pillar",
         "DESIGN.md 2/C15"),
     "C16": (
-        "Fully enumerated birth lattices: every Jie of the year windows (quick 1573-75, 1581-83, 2019-25; thorough 2-6, 1570-1590, 1890-2110, 9985-87) x 16 offsets (0, +-1 s, +-59 s, +-1 min, +-1 h, +-1 d, +-3 d, +-15 d, +7 d 3 h) x 2 genders x 4 strategies; births on days 28-31 / 1 of every month (every day of October 1582) at 23:59:59, 00:00:00, 12:00:00; a 997 s lattice across whole Jie-to-Jie spans; one birth per day of 1572-1582. Oracle: direction from year-stem polarity and gender, governing Jie from the term table, documented conversion rates per strategy, end = calendar addition via ordinals, 0 <= end - birth <= 11 y; decade fortunes (pillar = month pillar +-(k+1), ages 10 apart, years) and yearly fortunes (hour pillar +- age, year) incl. next(n). Plus births (one per day of the 11 years before a century year) whose limit ends in 1 Feb..15 Mar of that century year (quick 7 century years, thorough all 99).",
+        "Fully enumerated birth lattices: every Jie of the year windows (quick 1573-75, 1581-83, 2019-25; thorough 2-6, 1570-1590, 1890-2110, 9985-87) x 16 offsets (0, +-1 s, +-59 s, +-1 min, +-1 h, +-1 d, +-3 d, +-15 d, +7 d 3 h) x 2 genders x 4 strategies; births on days 28-31 / 1 of every month (every day of October 1582) at 23:59:59, 00:00:00, 12:00:00; a 997 s lattice across whole Jie-to-Jie spans; one birth per day of 1572-1582. Oracle: direction from year-stem polarity and gender, governing Jie from the term table, documented conversion rates per strategy, end = calendar addition via ordinals, 0 <= end - birth <= 11 y; decade fortunes (pillar = month pillar +-(k+1), ages 10 apart, years) and yearly fortunes (hour pillar +- age, year) incl. next(n). Plus births (one per day of the 11 years before a century year) whose limit ends in 1 Feb..15 Mar of that century year (quick 7 century years, thorough all 99), and births whose limit ends in October..December 9999.",
         "'Random birth instants' of the property are replaced by these lattices. When October 1582 is the target month both readings of the day (count / number) are accepted. Limits ending after 9999 are outside the claim.",
         "exhaustive enumeration of birth-instant lattices x genders x strategies against a term-table + calendar-arithmetic model",
         "DESIGN.md 2/C16"),
@@ -80,17 +80,17 @@ CLAIMED = {
         "explicit-state enumeration of all terms / dates / boundary instants against the global term sequence",
         "DESIGN.md 2/C06"),
     "C07": (
-        "Every civil date (thorough: all 3,652,061; quick: windows) x five routes: LunarDay pillar, SixtyCycleDay pillar, SolarDay/JulianDay/LunarDay weekday, compared with the closed forms (JDN+49) mod 60 and (JDN+1) mod 7 of the odometer's day number; since every date is compared with a function of the day number, every adjacent pair (month/year ends, 1582 cut-over, all lunar month boundaries) is covered. Also: the weekday of four instants inside each day, SixtyCycleDay::from_solar_day / LunarDay::get_sixty_cycle_day on every fifth date, and (quick) every 11th date of the whole range.",
+        "Every civil date (thorough: all 3,652,061; quick: windows) x five routes: LunarDay pillar, SixtyCycleDay pillar, SolarDay/JulianDay/LunarDay weekday, compared with the closed forms (JDN+49) mod 60 and (JDN+1) mod 7 of the odometer's day number; since every date is compared with a function of the day number, every adjacent pair (month/year ends, 1582 cut-over, all lunar month boundaries) is covered. Also: the weekday of four instants inside each day, SixtyCycleDay::from_solar_day / LunarDay::get_sixty_cycle_day on every fifth date, (quick) every 11th date of the whole range, and a lunar day with filled views stepped by +-1 day.",
         "Trusted: odometer JDN. Known finding: the 160 reform-era dates whose lunar label is wrong (C02) inherit a wrong pillar/weekday through the lunar routes.",
         "explicit-state enumeration of all dates x routes against closed forms of the day number",
         "DESIGN.md 2/C07"),
     "C08": (
-        "Day view: every civil date from the Lichun day of year 1 to 9998-12-31 (thorough all, quick windows): year pillar (Y-4) mod 60 with Y switching on the Lichun day, month branch counted from the Jie days of the library's term table, month stem by Five Tigers typed from the rhyme, index in year; on every Jie day the month object's first day / next / previous. Time view: all 119,976 Jie instants -1 s/+0/+1 s plus four hours of every window date. All sexagenary years -1..9999: year pillar, first month, 12 months by list and by index. Three further public routes (SixtyCycleDay::from_solar_day, LunarDay::get_sixty_cycle_day, the deprecated LunarDay / LunarHour getters, LunarHour::get_sixty_cycle_hour); month objects stepped by 19 step counts incl. negative multiples of 12; the quick tier visits every Jie day of all years and the day before.",
+        "Day view: every civil date from the Lichun day of year 1 to 9998-12-31 (thorough all, quick windows): year pillar (Y-4) mod 60 with Y switching on the Lichun day, month branch counted from the Jie days of the library's term table, month stem by Five Tigers typed from the rhyme, index in year; on every Jie day the month object's first day / next / previous. Time view: all 119,976 Jie instants -1 s/+0/+1 s plus four hours of every window date. All sexagenary years -1..9999: year pillar, first month, 12 months by list and by index. Three further public routes (SixtyCycleDay::from_solar_day, LunarDay::get_sixty_cycle_day, the deprecated LunarDay / LunarHour getters, LunarHour::get_sixty_cycle_hour); month objects stepped by 19 step counts incl. negative multiples of 12; the quick tier visits every Jie day of all years and the day before; SixtyCycleMonth::from_index with indexes outside 0..=11; dates of sexagenary year 0 (0001-01-06..02-04) included.",
         "Jie days/instants are the library's own (C05/C06 judge them).",
         "explicit-state enumeration of all dates / all Jie boundary instants against term-table + pillar algebra model",
         "DESIGN.md 2/C08"),
     "C09": (
-        "(a) 3 eras x 60 consecutive days x 24 hours x 2 clock times: hour branch/stem (Five Rats from the day the hour belongs to), index in day, 23:00 day roll, default and LunarSect2 providers; (b) every hour of every date of the windows: eight characters = year, month, day(+1 at 23h), hour pillars from the model; (c) inverse search on every double-hour of every day of fully enumerated years (quick 1 year x 2 ranges; thorough 5 eras x 2 years x 9 ranges [y-60k, y+60k']): every returned instant recomputes to the same characters, and a double-hour containing no Jie instant contains at least one returned instant. Also Jie-instant probes, the deprecated LunarHour getters on every fifth hour, stepping of a LunarHour whose lazy views are filled, searches for characters that never occur, January windows of the eras whose Xiaohan falls in December.",
+        "(a) 3 eras x 60 consecutive days x 24 hours x 2 clock times: hour branch/stem (Five Rats from the day the hour belongs to), index in day, 23:00 day roll, default and LunarSect2 providers; (b) every hour of every date of the windows: eight characters = year, month, day(+1 at 23h), hour pillars from the model; (c) inverse search on every double-hour of every day of fully enumerated years (quick 1 year x 2 ranges; thorough 5 eras x 2 years x 9 ranges [y-60k, y+60k']): every returned instant recomputes to the same characters, and a double-hour containing no Jie instant contains at least one returned instant. Also Jie-instant probes, the deprecated LunarHour getters on every fifth hour, stepping of a LunarHour whose lazy views are filled, searches for characters that never occur, January windows of the eras whose Xiaohan falls in December, the late Zi hour of 31 December against ranges ending in that year.",
         "Double-hours containing a Jie instant are skipped as the property states. Known finding: instants of the 160 reform-era dates (C02) inherit the wrong lunar day.",
         "explicit-state enumeration of hour lattices and exhaustive inverse-search conformance on enumerated day windows",
         "DESIGN.md 2/C09"),
@@ -105,7 +105,7 @@ CLAIMED = {
         "explicit-state enumeration of an instant lattice x step alphabet against an instant-ordinal model",
         "DESIGN.md 2/C12"),
     "C10": (
-        "Four explorers. (1) Explicit-state BFS over the real process-wide memo: state = canonical memo snapshot + poison flags (read through the verif hooks), transition = one request of an alphabet built to collide under every plausible keying plus refused requests; run to a fixpoint on the core alphabet (quick 256 states / thorough 4096) and to depth 2/3 on the full alphabet incl. walkers and the provider locks; every answer must equal the cold answer and the cache-free constructor. (2) Value-level lazy fields: every sequence of <= 3 of 18 / 15 observers on LunarDay/LunarHour values (incl. equality and order against fresh values, the day reached through an hour, hours of Jie days) vs a fresh value. (3) generic histories: 576 / 3,200 (date, observer) requests on a collision-prone grid, cold answer of each from its own fresh OS process, then one in-process history containing every ordered pair adjacently. (4) loom (DPOR) over the repository's own source files compiled against loom's Mutex/lazy_static: 2-4 threads x 1-3 requests on colliding keys, nested provider->memo locks and Err-refusals, preemption bounds 0,1,2,(3), unbounded for the small harnesses; every complete schedule's answers must equal the cold answers; loom reports deadlocks.",
+        "Four explorers. (1) Explicit-state BFS over the real process-wide memo: state = canonical memo snapshot + poison flags (read through the verif hooks), transition = one request of an alphabet built to collide under every plausible keying plus refused requests; run to a fixpoint on the core alphabet (quick 256 states / thorough 4096) and to depth 2/3 on the full alphabet incl. walkers and the provider locks; every answer must equal the cold answer and the cache-free constructor. (2) Value-level lazy fields: every sequence of <= 3 of 18 / 15 observers on LunarDay/LunarHour values (incl. equality and order against fresh values, the day reached through an hour, hours of Jie days) vs a fresh value. (3) generic histories: 576 / 3,200 (date, observer) requests on a collision-prone grid, cold answer of each from its own fresh OS process, then one in-process history containing every ordered pair adjacently. (3b) one long history (all 123,684 lunar months requested, then requested again: every repeated answer = cache-free constructor) and the order-independence invariant of the leap table (decoded table via hook: no year in two lists, get_leap_month of every year = its list). (4) loom (DPOR) over the repository's own source files compiled against loom's Mutex/lazy_static: 2-4 threads x 1-3 requests on colliding keys, nested provider->memo locks and Err-refusals, preemption bounds 0,1,2,(3), unbounded for the small harnesses; every complete schedule's answers must equal the cold answers; loom reports deadlocks.",
         "The '16 OS threads' clause is replaced by exhaustive loom schedules of small harnesses (a free-running stress run would be sampling). loom cannot unwind through a held loom MutexGuard, so panicking refusals are decided by the sequential explorer on std's Mutex (which has poisoning); data races on the !Sync lazy fields are excluded by the compiler (no unsafe).",
         "explicit-state BFS over memo states against cold answers + loom bounded-preemption schedule exploration of the real source",
         "DESIGN.md 2/C10"),
